@@ -91,6 +91,11 @@ CHECKS = {
          "spec/NetIndex.tla models the histogram, shortcut, domain and sequential tables, AddRule's eligibility/least-used-window policy and MatchAll's probing with the rule re-check; the hash is a parameter instantiated with the real djb2 values exported by the harness, which include two pairs of genuinely colliding 5-character windows and a pair of colliding domain names. TLC explores every insertion sequence of up to 2 rules of the 59-rule pool and up to 3-4 of seeded sub-pools, checks LookupEqualsScan against 280 queries on the model and emits the expected sets; every sequence is loaded through RuleStorage and NewNetworkEngine (one and two lists) and texts(MatchAll) is compared with the specification and with the linear scan by rule.Match. The bundled real-world lists x requests.json are validated by Trace_NetIndex.",
          "Trusted: TLC, rule.Match as the reference the property names, the pool renderer (shortcut and permitted domains cross-checked on the parsed rule).",
          "6/C01"),
+ "C02": ("model_checking",
+         "TLC enumeration of rule/hosts-entry sets with the TLA+ reference resolution (host-level filter, Rule!Match, DNS verdict, hashed host table with REAL colliding hostnames); replay through NewDNSEngine/MatchRequest",
+         "spec/DNSEngine.tla defines the reference answer over ALL entries of the lists (DNS-applicable rules that match via Rule!Match and Rule!HostLevel, Verdict!DNSClass, hosts entries naming the host split by family, matched flag) and the hashed host table with its name re-check; TLC enumerates every set of up to 3 (quick) / 4 (thorough) entries of a 24-entry pool against 40 requests, with the real djb2 values of the hostnames (two of which genuinely collide), checks HostTableOK and emits the answers; every set is loaded in seeded order/splits into the real DNSEngine and NetworkRules, the class and admissibility of the basic rule, both host groups and the matched flag are compared.",
+         "Trusted: TLC, the renderer (cross-checked against the parsed rules). Which of several equal-class rules is reported is not compared.",
+         "6/C02"),
 }
 
 NOT_YET = "check not built yet in this session (see DESIGN.md section 6 for the planned TLA+ decision procedure)"
